@@ -33,9 +33,18 @@ func bpNew(t []string) *bpStack {
 	case "bpnest":
 		o, i := string(corr.UnHex(t[2])), string(corr.UnHex(t[3]))
 		return &bpStack{afero.NewBasePathFs(afero.NewBasePathFs(m, o), i), m, []string{o, i}}
+	case "bpnl": // the source offers no Lstat of its own
+		d := string(corr.UnHex(t[2]))
+		return &bpStack{afero.NewBasePathFs(plainFs{m}, d), m, []string{d}}
+	case "bpnlnest":
+		o, i := string(corr.UnHex(t[2])), string(corr.UnHex(t[3]))
+		return &bpStack{afero.NewBasePathFs(afero.NewBasePathFs(plainFs{m}, o), i), m, []string{o, i}}
 	}
 	panic("unknown stack")
 }
+
+// plainFs hides every optional interface of the wrapped filesystem (Lstater, Linker, …).
+type plainFs struct{ afero.Fs }
 
 func (s *bpStack) real(name string) string {
 	parts := append(append([]string{}, s.roots...), name)
@@ -128,6 +137,16 @@ func c09Oracle(c corr.Case, impl []string) (string, int) {
 var c09Roots = [][]string{
 	{"bp", "/base"}, {"bp", "/base/"}, {"bp", "/x/../base//sub/."}, {"bp", "/"}, {"bp", "//deep/er/root"},
 	{"bpnest", "/base", "/sub"}, {"bpnest", "/base/", "/sub/inner/"}, {"bpnest", "/", "/base"}, {"bpnest", "/base", "/"},
+	{"bpnl", "/base"}, {"bpnlnest", "/base", "/sub"},
+}
+
+// a name that leaves the innermost root by ".." and comes back in by naming the root again
+func c09Reenter(root []string, sp string) string {
+	inner := filepath.Clean(root[len(root)-1])
+	if inner == "/" {
+		return ""
+	}
+	return strings.Repeat("../", strings.Count(inner, "/")) + strings.TrimPrefix(inner, "/") + "/" + strings.TrimPrefix(sp, "/")
 }
 
 func c09Header(root []string) string {
@@ -148,8 +167,11 @@ func c09Wrap(root []string, prog corr.Case, r *corr.Rand) corr.Case {
 		if l == "snapshot" && r.Chance(50) {
 			continue
 		}
-		lines = append(lines, l)
 		t := strings.Fields(l)
+		if t[0] == "stat" && r.Chance(50) {
+			l = "l" + l // LstatIfPossible: the same answer where there are no symbolic links
+		}
+		lines = append(lines, l)
 		if t[0] == "create" || t[0] == "open" || t[0] == "openfile" {
 			nh++ // may over-count failed opens; h.name on a missing handle answers err:inval on both sides
 			if r.Chance(40) {
@@ -157,7 +179,11 @@ func c09Wrap(root []string, prog corr.Case, r *corr.Rand) corr.Case {
 			}
 		}
 		if r.Chance(6) {
-			lines = append(lines, "fullpath "+corr.HexS(randPath(r, 3)))
+			p := randPath(r, 3)
+			if re := c09Reenter(root, p); re != "" && r.Chance(30) {
+				p = re
+			}
+			lines = append(lines, "fullpath "+corr.HexS(p))
 		}
 	}
 	lines = append(lines, "snapshot")
@@ -185,11 +211,15 @@ func c09Exhaustive(tier string) []corr.Case {
 	for _, root := range c09Roots {
 		full := filepath.Join(root[1:]...)
 		// (the last three: in-root names whose first element merely BEGINS with dots)
-		for _, sp := range []string{"/d/f", "d/f", "/d//f", "/./d/f", "/d/x/../f", "//d/f", "/..data/f", "/.../f", "/.hidden/..f"} {
+		sps := []string{"/d/f", "d/f", "/d//f", "/./d/f", "/d/x/../f", "//d/f", "/..data/f", "/.../f", "/.hidden/..f"}
+		if re := c09Reenter(root, "d/f"); re != "" {
+			sps = append(sps, re, "/"+re) // leaves the root and re-enters it: still a name inside the root
+		}
+		for _, sp := range sps {
 			dir := filepath.Dir(filepath.Clean("/" + sp))
 			l := []string{c09Header(root), "src.mkdirall " + h(full) + " 493",
 				"mkdirall " + h(dir+"/x") + " 493", "create " + h(sp), "h.write 0 68656c6c6f", "h.name 0", "h.close 0",
-				"stat " + h(sp), "open " + h(sp), "h.read 1 16", "h.name 1", "open " + h(dir), "h.readdirnames 2 -1", "h.name 2",
+				"stat " + h(sp), "lstat " + h(sp), "lstat " + h(dir), "lstat " + h(dir+"/nope"), "open " + h(sp), "h.read 1 16", "h.name 1", "open " + h(dir), "h.readdirnames 2 -1", "h.name 2",
 				"chmod " + h(sp) + " 384", "chtimes " + h(sp) + " 5", "chown " + h(sp) + " 1 1",
 				"openfile " + h(sp) + " 2 420", "h.writeat 3 5858 1", "h.name 3", "h.close 3",
 				"rename " + h(sp) + " " + h(dir+"/g"), "stat " + h(dir+"/g"), "fullpath " + h(sp), "fullpath " + h(""),
